@@ -109,6 +109,7 @@ type outcome struct {
 	tmpLeft   []string
 	raw       string
 	skippedFollowOutput bool
+	followDetail string
 	err       error
 }
 
@@ -215,8 +216,10 @@ func killOnce(kc KillCase) outcome {
 		return oc
 	}
 	if rec.Recover == "fail" && rec.Stage == "output-check" && follow {
-		// follow mode applies pages in place to the published output; its crash behaviour is C16's subject.
+		// follow mode applies pages in place to the published output: recorded as its own (known) finding,
+		// then the output is set aside so that the rest of the oracle still runs.
 		oc.skippedFollowOutput = true
+		oc.followDetail = rec.Detail
 		for _, f := range []string{"restored.db", "restored.db-wal", "restored.db-shm"} {
 			os.Remove(filepath.Join(root, "out", f))
 		}
@@ -324,7 +327,14 @@ func (g *engine) record(oc outcome, root string) {
 		g.res.Count("with-acked-txid")
 	}
 	if oc.skippedFollowOutput {
-		g.res.Count("follow-inplace-output-skipped(C16)")
+		if g.res.Distribution["follow-inplace-output-malformed"] == 0 {
+			// Reported once per run under a specific signature (KNOWN_FINDINGS: follow mode applies the pages of a
+			// transaction in place, without a journal; C16 shows that a restarted follower heals the file).
+			g.res.AddFinding("violation", "C03/follow-inplace-output-malformed",
+				fmt.Sprintf("scenario %s killed before call %d (%s) while the follower applies pages in place: the published restore output is not a whole database: %s", kc.Name, kc.K, describe(kc.Call), tailS(oc.followDetail, 200)),
+				map[string]any{"scenario": kc.Scenario, "k": kc.K, "call": kc.Call, "detail": oc.followDetail})
+		}
+		g.res.Count("follow-inplace-output-malformed")
 	}
 	payload := map[string]any{"scenario": kc.Scenario, "k": kc.K, "call": kc.Call, "acked": oc.acked, "op": oc.opAtKill, "recover": oc.rec, "log": tailS(oc.raw, 1500)}
 	if oc.rec.Recover == "fail" {
@@ -537,8 +547,8 @@ func (g *engine) replay() int {
 		kc := w.Replay
 		kc.K = k
 		oc := killOnce(kc)
-		fmt.Printf("k=%d killed=%v before=%s acked=%d recover=%s stage=%s detail=%s tmp_left=%v\n", k, oc.killed, describe(oc.kc.Call), oc.acked, oc.rec.Recover, oc.rec.Stage, tailS(oc.rec.Detail, 300), oc.tmpLeft)
-		if oc.killed && (oc.rec.Recover == "fail" || len(oc.tmpLeft) > 0) {
+		fmt.Printf("k=%d killed=%v before=%s acked=%d recover=%s stage=%s detail=%s tmp_left=%v follow_output=%q\n", k, oc.killed, describe(oc.kc.Call), oc.acked, oc.rec.Recover, oc.rec.Stage, tailS(oc.rec.Detail, 300), oc.tmpLeft, oc.followDetail)
+		if oc.killed && (oc.rec.Recover == "fail" || len(oc.tmpLeft) > 0 || oc.followDetail != "") {
 			fails++
 		}
 	}
